@@ -813,3 +813,31 @@ register(
           "Non-trivial = >= 2 actors created and >= 3 tagged messages"),
     nontrivial=lambda sc, r: C15.stats_c15(sc, r)["actors_created"] >= 2 and C15.stats_c15(sc, r)["messages_expected"] >= 3,
 )
+
+
+# C12 with actor trees and systemId registrations (the command-interpreter machines of C15, no delayed sends)
+def gen_c12_actors(engine):
+    base = C15.gen_c15(engine)
+
+    def g(seed):
+        sc = base(seed)
+        ops = []
+        for op in sc["ops"]:
+            op = {k: v for k, v in op.items() if k not in ("t",)}
+            txt = repr(op)
+            if "'delay'" in txt or "xstate.cancel" in txt:
+                continue  # pending delayed sends are documented as not persisted
+            ops.append(op)
+        sc["ops"] = ops[:9]
+        sc.pop("horizon", None)
+        sc.pop("post_stop", None)
+        sc["uses_actors"] = True
+        sc["restore_cycles"] = 1
+        return sc
+    return g
+
+
+C12_FAMS = REGISTRY_C12 = None
+from .check import REGISTRY as _REG  # noqa: E402
+_REG["C12"]["families"] = list(_REG["C12"]["families"]) + [("cuts_actors_async", 2, gen_c12_actors("async")),
+                                                            ("cuts_actors_sync", 2, gen_c12_actors("sync"))]
